@@ -635,6 +635,7 @@ let op_query opidx (impl : string list option) toks =
 let run (opidx : int) (impl : string list option) (toks : string list) : bool =
   match toks with
   | "query" :: rest -> op_query opidx impl rest; true
+  | "parsei" :: _k :: sec :: rq :: pkt :: _ -> op_parse opidx impl [ sec; rq; pkt ]; true   (* the verdict is that of the packet alone *)
   | "dynext" :: rest -> op_dynext opidx impl rest; true
   | "udp" :: rest -> op_udp opidx impl rest; true
   | "dynsrv" :: rest -> op_dynsrv opidx impl rest; true
